@@ -8,7 +8,8 @@
 // increment or right after its decrement) and the driver checks that the observed stable state is one
 // of the model's stable successor states.
 //
-// ops:   C bound=<n> q=<n> io=<0|1>        taskpool.New(bound, q) / taskpool.NewIO(bound, q, 64)
+// ops:   C bound=<n> q=<n> io=<0|1> cc=<0|1>   taskpool.New(bound, q) / taskpool.NewIO(bound, q, 64); cc=1: with a
+//                                           custom caller (the optional third argument of New)
 //        go t park=<-|inc|undo>            a goroutine calls Go(task t); park: hold that call in the hook
 //        rel t | relr k                    release the parked Go call of task t / of the k-th parked task
 //        fin t p=<0|1> | finr k p=<0|1>    open the gate of running task t / of the k-th running task (p=1: it panics)
@@ -56,7 +57,7 @@ func gen(g *lp.Gen) {
 			bound = 0
 		}
 		q := g.PickInt(0, 1, 1, 2, 2, 4, 8)
-		g.P("C bound=%d q=%d io=%d", bound, q, b2i(g.Chance(1, 5)))
+		g.P("C bound=%d q=%d io=%d cc=%d", bound, q, b2i(g.Chance(1, 5)), b2i(g.Chance(1, 4)))
 		next := 1
 		handed := 0
 		outstanding := 0
@@ -165,18 +166,34 @@ func (l *capLogger) Error(f string, v ...interface{}) {
 
 type pool struct {
 	bound, q int
-	io       bool
+	io, cc   bool
 	tp       *taskpool.TaskPool
 	iop      *taskpool.IOTaskPool
 }
 
-func newPool(bound, q int, io bool) *pool {
-	p := &pool{bound: bound, q: q, io: io}
+var customPanics int32
+
+// customCaller is what a user of taskpool.New's optional argument would pass: run f, contain its panic.
+func customCaller(f func()) {
+	defer func() {
+		if r := recover(); r != nil {
+			atomic.AddInt32(&customPanics, 1)
+		}
+	}()
+	f()
+}
+
+func newPool(bound, q int, io, cc bool) *pool {
+	p := &pool{bound: bound, q: q, io: io, cc: cc}
+	var v []interface{}
+	if cc {
+		v = append(v, customCaller)
+	}
 	if io {
-		p.iop = taskpool.NewIO(bound, q, 64)
+		p.iop = taskpool.NewIO(bound, q, 64, v...)
 		p.tp = p.iop.VerifTask()
 	} else {
-		p.tp = taskpool.New(bound, q)
+		p.tp = taskpool.New(bound, q, v...)
 	}
 	return p
 }
@@ -348,12 +365,12 @@ func (s *sess) observe() string {
 var freshCap = map[string]int{}
 
 // capacityOfFreshPool: how many mutually waiting tasks a fresh pool of this configuration runs together.
-func capacityOfFreshPool(bound, q int, io bool) int {
-	k := fmt.Sprintf("%d/%d/%v", bound, q, io)
+func capacityOfFreshPool(bound, q int, io, cc bool) int {
+	k := fmt.Sprintf("%d/%d/%v/%v", bound, q, io, cc)
 	if c, ok := freshCap[k]; ok {
 		return c
 	}
-	s := &sess{p: newPool(bound, q, io), tasks: map[int]*task{}, byGoid: map[int64]*task{}, bufs: map[*[]byte]int{}, e: nil}
+	s := &sess{p: newPool(bound, q, io, cc), tasks: map[int]*task{}, byGoid: map[int64]*task{}, bufs: map[*[]byte]int{}, e: nil}
 	n := bound + 2
 	for i := 0; i < n; i++ {
 		t := s.newTask(i, "")
@@ -421,13 +438,18 @@ func exec(e *lp.Exec) {
 				continue
 			}
 			io := kv["io"] == "1"
-			capacityOfFreshPool(bound, q, io)
+			cc := kv["cc"] == "1"
+			capacityOfFreshPool(bound, q, io, cc)
 			atomic.StoreInt32(&lg.n, 0)
-			s = &sess{p: newPool(bound, q, io), tasks: map[int]*task{}, byGoid: map[int64]*task{}, bufs: map[*[]byte]int{}, e: e}
+			atomic.StoreInt32(&customPanics, 0)
+			s = &sess{p: newPool(bound, q, io, cc), tasks: map[int]*task{}, byGoid: map[int64]*task{}, bufs: map[*[]byte]int{}, e: e}
 			current.Store(s)
-			fmt.Fprintf(&s.key, "%d/%d/%v|", bound, q, io)
+			fmt.Fprintf(&s.key, "%d/%d/%v/%v|", bound, q, io, cc)
 			e.Count("cases", fmt.Sprintf("bound%d", bound))
-			e.P("> C bound=%d q=%d io=%d", bound, q, b2i(io))
+			if cc {
+				e.Count("cases", "custom-caller")
+			}
+			e.P("> C bound=%d q=%d io=%d cc=%d", bound, q, b2i(io), b2i(cc))
 			e.P("ok")
 		case "go":
 			if len(nums) < 1 {
@@ -551,7 +573,7 @@ func exec(e *lp.Exec) {
 			}
 			o := s.observe()
 			run, _, _, _ = s.sets()
-			want := capacityOfFreshPool(s.p.bound, s.p.q, s.p.io)
+			want := capacityOfFreshPool(s.p.bound, s.p.q, s.p.io, s.p.cc)
 			if k < want {
 				want = k
 			}
@@ -615,7 +637,7 @@ func (s *sess) finish(lg *capLogger) {
 			}
 		}
 	}
-	if got := atomic.LoadInt32(&lg.n); got != s.npanic {
+	if got := atomic.LoadInt32(&lg.n) + atomic.LoadInt32(&customPanics); got != s.npanic {
 		e.Oracle("c19-panic", "%d tasks panicked, %d contained panics were logged", s.npanic, got)
 	}
 	if s.npanic > 0 {
